@@ -2,6 +2,7 @@
 pub mod engine;
 pub mod evidence;
 pub mod props;
+pub mod sched;
 pub mod sel;
 pub mod util;
 pub mod world;
